@@ -25,6 +25,7 @@ mod robs_set;
 mod rtc;
 mod transport;
 mod watch;
+mod watch_size;
 
 use std::io::Write;
 
